@@ -431,6 +431,7 @@ def run_case(c):
     argsh = (lam, tok_h) if use_argsh else ()
     argsprox = (lam, tok_p) if use_argsprox else ()
     rec = dict(h_calls=0, prox_calls=0, h_bad=[], prox_bad=[])
+    inplace = (int(c['np_seed']) % 4 == 0)
     cpu_limit = c.get('cpu_limit')
     t_start = time.process_time()
 
@@ -450,7 +451,11 @@ def run_case(c):
         if not ok and len(rec['prox_bad']) < 3:
             rec['prox_bad'].append('prox got x shape %s, u=%r, %d extra args %s'
                                    % (np.shape(x), u, len(args), [type(a).__name__ for a in args]))
-        return soft(x, lam * u) if reg == 'L1' else block_soft(x, lam * u)
+        out = soft(x, lam * u) if reg == 'L1' else block_soft(x, lam * u)
+        if inplace and isinstance(x, np.ndarray) and x.flags.writeable:
+            x[:] = out            # a proximal operator that works in place and returns its argument (legal; every fourth case)
+            return x
+        return out
 
     objfun = lambda x: A @ x - b
     data = case_data(c)
